@@ -142,7 +142,7 @@ def _mode_runs(n, depth=2):
             _MRUNS[key] = [()]
         else:
             cur = []
-            for first in ('y', ';', ':', '!', ',', '"s"'):
+            for first in ('y', ';', ':', '!', ',', '"s"', 'q\\('):
                 cur += [(first,) + r for r in _mode_runs(n - 1, depth)]
             if depth > 0:
                 for o, c in (('(', ')'), ('[', ']'), ('{', '}'), ('f(', ')')):
@@ -165,6 +165,8 @@ MODES = {
 def _mtok(v):
     if v == '"s"':
         return ('STRING', v, 1, 1)
+    if v == 'q\\(':
+        return ('IDENT', v, 1, 1)
     return _tok(v) if v not in (':', '!', ',') else ('CHAR', v, 1, 1)
 
 
@@ -204,7 +206,7 @@ def _m_job(args):
 
 
 def r04m(chk, rid='R04.m', thorough=False):
-    chk.rule(rid, 'the splitting modes of the bracket counter, decided by evaluation: Base._tokensupto2 is evaluated on its syntax tree in every mode the rule classes use (start of a block, end of a block, end of a media block, ";", the ends of a property name, value and priority, the list separator, the ends of the media queries of @import and @media) on every balanced run of names, strings, ";", ":", "!", "," and brackets of all kinds that does not contain the end mark of the mode at its top level, followed by each end mark of the mode and by further tokens: it returns exactly the run and its end mark - an end mark inside brackets, a block or a function does not end it')
+    chk.rule(rid, 'the splitting modes of the bracket counter, decided by evaluation: Base._tokensupto2 is evaluated on its syntax tree in every mode the rule classes use (start of a block, end of a block, end of a media block, ";", the ends of a property name, value and priority, the list separator, the ends of the media queries of @import and @media) on every balanced run of names (one of them ending in an escaped parenthesis), strings, ";", ":", "!", "," and brackets of all kinds that does not contain the end mark of the mode at its top level, followed by each end mark of the mode and by further tokens: it returns exactly the run and its end mark - an end mark inside brackets, a block or a function does not end it')
     chk.assume('R04.m: the end marks per mode are the table in the checker (from the parameter comments of _tokensupto2 and the call sites); runs up to a length bound with nesting depth 2')
     import multiprocessing as mp
 
